@@ -79,6 +79,16 @@ func c04Specs(tier string) []*h.SeqSpec {
 		}
 		return nil
 	}})
+	// the exact bytes of a manifest stored as a plain blob: that proves nothing about the manifest's references
+	for _, n := range []string{"Inol", "Xmiss", "Ib"} {
+		n := n
+		ops = append(ops, h.Op{Name: "upload the bytes of " + n + " as a blob", Do: func(w *h.World) []h.Violation {
+			if r := w.PushBlob(repo, f.Items[n].Data, f.Items[n].Dig); r.Status == 201 {
+				regM(w).Repo(repo).PushBlob(n)
+			}
+			return nil
+		}})
+	}
 	ops = append(ops, opPushMan("C04", repo, f, "A1", "u"))
 	ops = append(ops, opDeleteMan("C04", repo, f, "I1"))
 	nBuild := len(ops)
